@@ -10,7 +10,9 @@ from vf.render import c02_programs as rp
 # hex digit classes (e, f32/f64 endings) and each other
 INT_POOL = [0, 1, 2, 3, 4, 5, 6, 7, 8, 9, 10, 11, 12, 15, 16, 17, 20, 21, 22, 24, 30, 32, 40, 42, 60, 64, 77, 80, 99, 100, 101,
             200, 254, 255, 256, 404, 443, 500, 1000, 1024, 3000, 3600, 4096, 5000, 8080, 8443, 65535, 86400, 1000000,
-            0xFE, 0x1E, 0xBEEF, 0xE0, 0x1F32, 0x7F32, 0xF64, 0xABF64, 0x2F32, 0xF32, 0xEF64]
+            0xFE, 0x1E, 0xBEEF, 0xE0, 0x1F32, 0x7F32, 0xF64, 0xABF64, 0x2F32, 0xF32, 0xEF64,
+            # integers a double cannot represent exactly: values must be compared as integers, never via float
+            2**53 + 1, 2**63 - 1, 0xFFFFFFFFFFFFFFFF, 18446744073709551557, 10**18 + 3]
 HEX_TRICKY = [0x1F32, 0x7F32, 0xF64, 0xABF64, 0x2F32, 0xF32, 0xEF64, 0xFE, 0x1E, 0xBEEF, 0xE0, 0xE, 0xAF32, 0x10F64]
 FLOAT_TEXTS = ["0.5", "1.5", "2.5", "3.14", "0.25", "2.71828", "99.9", "0.001", "10.5", "1.414", "7.25",
                # many significant digits, large and tiny magnitudes: the message must name the value, not a rounding of it
